@@ -424,5 +424,6 @@ def bounded_checks(tier, seed):
              "field by field (kinds, titles, item names, annotations, defaults, descriptions, order); annotations / defaults omitted from the text are compared with the "
              "signature of the documented object",
              "bound": f"one deterministic catalogue (every section kind x item shapes x neighbours) + {n} random section lists (<= 6 sections, <= 3 items, multi-line and "
-                      "blank-line-containing descriptions, optional types, admonitions and free text in between) per style",
+                      "blank-line-containing descriptions, underlined sub-headings and rules inside descriptions, optional types, admonitions and free text in between) per style; "
+                      "untyped Returns / Yields / Receives items (one and several) under tuple-returning functions and generators",
              "cases": d["cases"], "failing": len(d["bad"]), "wall_s": round(time.time() - t0, 1), "violations": d["bad"]}]
